@@ -20,4 +20,5 @@ def run(chk, program, tier):
                  ('SEND-ORDER', 'packets written in list order'), ('SEND-RAISES', 'unsendable message -> log and drop only'), ('SEND-TYPES', 'what reaches writer.write is bytes')):
         chk.rule(r, t)
     K.send_rules(chk, program)
+    K.lock_owner(chk, program)
     K.send_types(chk, program)
